@@ -304,6 +304,171 @@ fn structured(ctx: &mut Ctx, rng: &mut Rng, rounds: usize) {
     }
 }
 
+/// strings whose byte length straddles the usual buffer / abbreviation boundaries with a
+/// multi-byte character sitting across the boundary
+fn stress_strings() -> Vec<String> {
+    let mut v = Vec::new();
+    for unit in ["é", "€", "😀", "e\u{301}"] {
+        for pre in 0..4usize {
+            for target in [8usize, 16, 24, 32, 48, 64, 100, 128, 255, 256, 512, 1024] {
+                let mut s = "a".repeat(pre);
+                while s.len() < target + 4 { s.push_str(unit); }
+                v.push(s);
+            }
+        }
+    }
+    v
+}
+
+fn sha256_b64(s: &str) -> String {
+    use sha2::{Digest, Sha256};
+    real::b64url_encode(&Sha256::digest(s.as_bytes()))
+}
+
+/// every place where the library reads a string from the token, fed with long non-ASCII text —
+/// in particular on the paths that end in an error carrying that text
+fn string_stress(ctx: &mut Ctx) {
+    let all = stress_strings();
+    let step = if ctx.tier_thorough || ctx.scale > 1 { 1 } else { 3 };
+    for (si, st) in all.iter().enumerate() {
+        if si % step != 0 { continue; }
+        let q = serde_json::to_string(st).unwrap();
+        let d3 = b64(&format!("[\"salt\",{},2]", q));
+        let d2 = b64(&format!("[\"salt\",{}]", q));
+        let dg3 = sha256_b64(&d3);
+        let dg2 = sha256_b64(&d2);
+        let mut named = serde_json::Map::new();
+        named.insert("_sd_alg".into(), json!("sha-256"));
+        named.insert(st.clone(), json!(1));
+        named.insert("_sd".into(), json!([dg3]));
+        let cases: Vec<(Value, Vec<String>)> = vec![
+            (json!({"_sd_alg": st}), vec![]),
+            (json!({"_sd_alg": "sha-256", "_sd": [st, st]}), vec![]),
+            (json!({"_sd_alg": "sha-256", "a": [{"...": st}, {"...": st}]}), vec![]),
+            (json!({"_sd_alg": "sha-256", "_sd": [st], "a": {"_sd": [st]}}), vec![]),
+            (Value::Object(named), vec![d3.clone()]),
+            (json!({"_sd_alg": "sha-256", "a": [{"...": dg3}]}), vec![d3.clone()]),
+            (json!({"_sd_alg": "sha-256", "_sd": [dg2]}), vec![d2.clone()]),
+            (json!({"_sd_alg": "sha-256", "_sd": [dg3]}), vec![d3.clone(), d3.clone()]),
+            (json!({"_sd_alg": "sha-256", "_sd": [dg3]}), vec![d3.clone()]),
+            (json!({"_sd_alg": "sha-256"}), vec![b64(&format!("[\"s\",{{{}:1}},1]", q))]),
+            (json!({"_sd_alg": "sha-256"}), vec![b64(&format!("[\"s\",[{}],1]", q))]),
+            (json!({"_sd_alg": "sha-256"}), vec![b64(&q)]),
+            (json!({"_sd_alg": "sha-256"}), vec![b64(st)]),
+            (json!({"_sd_alg": "sha-256"}), vec![st.clone()]),
+            (json!({"_sd_alg": "sha-256", "cnf": {"kty": st, "n": st, "e": st}}), vec![]),
+            (json!({"_sd_alg": "sha-256", "cnf": {"kty": "RSA", "n": st, "e": "AQAB"}}), vec![]),
+        ];
+        for (ci, (p, list)) in cases.iter().enumerate() {
+            let jwt = match sign_payload(p) { Some(j) => j, None => continue };
+            let token = format!("{}~{}{}", jwt, list.join("~"), if list.is_empty() { "" } else { "~" });
+            let case = json!({"kind":"payload","stress":ci,"payload":p,"discs":list});
+            all_entries(ctx, &token, &case, false);
+            compare_class(ctx, p, &token, list, &case);
+            ctx.report.nontrivial_case(&case);
+        }
+        // the string itself where a token, a disclosure, an algorithm name, a key or a YAML document is expected
+        for s2 in [st.clone(), format!("{}~{}~", st, st), format!("a.{}.c~", st)] {
+            let case = json!({"kind":"string","s":s2});
+            all_entries(ctx, &s2, &case, false);
+        }
+        for y in [st.clone(), format!("{}: !sd x", st), format!("? !sd [{}]\n: 1", st), format!("{}:\n  - !sd [{}]", st, st), format!("!sd {}: {{!sd {}: [!sd {{a: 1}}]}}", st, st), format!("{}: !sd", st)] {
+            let case = json!({"kind":"junk","s":y});
+            small_entries(ctx, &y, &case);
+            ctx.report.evaluations += 1;
+        }
+        // a header the issuer may have set
+        let mut h = Header::new(Algorithm::HS256);
+        h.typ = Some(st.clone());
+        h.kid = Some(st.clone());
+        h.cty = Some(st.clone());
+        if let Out::Ok(jwt) = real::sign(&h, &json!({"_sd_alg":"sha-256"}), &keys::enc_key(0, 0)) {
+            let s2 = format!("{}~", jwt);
+            let case = json!({"kind":"string","s":s2});
+            all_entries(ctx, &s2, &case, false);
+        }
+    }
+    ctx.report.bump_by("stress-strings", (all.len() / step) as u64);
+}
+
+/// validly signed key-binding JWTs whose claims sit at the edges of every numeric / JSON type,
+/// behind a bound token: `verify_kb` directly and through `Verifier::verify`
+fn kb_case(ctx: &mut Ctx, kb_claims: &Value, typ: &str, leeway: u64, validate_exp: bool, case: &Value) {
+    real::set_current(case);
+    ctx.report.evaluations += 1;
+    let jwk = keys::holder_jwk();
+    let base = json!({"_sd_alg": "sha-256", "cnf": jwk, "a": 1});
+    let jwt = match sign_payload(&base) { Some(j) => j, None => return };
+    let prefix = format!("{}~", jwt);
+    let mut claims = kb_claims.clone();
+    if claims.get("sd_hash").map_or(false, |h| h == &json!("@correct")) {
+        claims["sd_hash"] = json!(sha256_b64(&prefix));
+    }
+    let mut h = Header::new(Algorithm::RS256);
+    h.typ = Some(typ.to_string());
+    let kb = match real::sign(&h, &claims, &keys::enc_key(1, 1)) { Out::Ok(k) => k, _ => return };
+    let mut kbv = Validation::default().with_leeway(leeway);
+    if !validate_exp { kbv = kbv.without_expiry(); }
+    let r = real::guard(|| sdjwt::verify_kb(&kb, &jwk, &kbv).map(|_| ()));
+    ctx.report.bump(&format!("verify_kb(signed):{}", r.class()));
+    if let Out::Panic(site) = &r {
+        let s = site.split(' ').next().unwrap_or("").to_string();
+        ctx.report.diff("property", "verify_kb", &format!("verify_kb:panic:{}:region={}", s, case["region"].as_str().unwrap_or("none")), case, json!({"panic": site}));
+    }
+    let pres = format!("{}{}", prefix, kb);
+    let r = real::verifier_verify(&pres, &keys::dec_key(0, 0), &validation(), Some(&kbv));
+    ctx.report.bump(&format!("Verifier::verify(signed kb):{}", r.class()));
+    if let Out::Panic(site) = &r {
+        let s = site.split(' ').next().unwrap_or("").to_string();
+        ctx.report.diff("property", "Verifier::verify+kb", &format!("Verifier::verify+kb:panic:{}:region={}", s, case["region"].as_str().unwrap_or("none")), case, json!({"panic": site}));
+    }
+    ctx.report.nontrivial_case(case);
+}
+
+fn kb_extremes(ctx: &mut Ctx) {
+    let nums: Vec<Value> = vec![
+        json!(0), json!(1), json!(-1), json!(i64::MAX), json!(i64::MIN), json!(i64::MAX / 2), json!(i64::MIN / 2), json!(u64::MAX), json!(u64::MAX - 30),
+        json!(9_007_199_254_740_993u64), json!(1e308), json!(-1e308), json!(1.5), json!(4_102_444_800i64), json!(253_402_300_800i64), json!(8_210_298_412_800i64),
+        json!(i64::MAX / 1000), json!(i64::MAX / 1000 + 1), json!(i32::MAX), json!(i32::MIN), json!(u32::MAX),
+        json!("1"), json!(null), json!(true), json!([1]), json!({"a": 1}),
+    ];
+    let good = json!({"aud": "aud", "nonce": "n", "iat": 1_700_000_000, "sd_hash": "@correct"});
+    for field in ["iat", "exp", "nbf", "aud", "nonce", "sd_hash", "iss", "sub", "jti"] {
+        for (ni, n) in nums.iter().enumerate() {
+            for (leeway, vexp) in [(0u64, false), (0, true), (60, false), (60, true)] {
+                let mut c = good.clone();
+                c[field] = n.clone();
+                // the dependency's unchecked `exp + leeway` / `nbf - leeway` (the known finding) is
+                // labelled by region, as for the issuer JWT
+                let region = match (field, leeway > 0) {
+                    ("exp", true) if vexp && n.as_u64().map_or(false, |x| x > u64::MAX - leeway) => "exp+leeway",
+                    _ => "none",
+                };
+                let case = json!({"kind":"kb-extreme","field":field,"value_index":ni,"claims":c,"typ":"kb+jwt","leeway":leeway,"validate_exp":vexp,"region":region});
+                kb_case(ctx, &c, "kb+jwt", leeway, vexp, &case);
+            }
+        }
+    }
+    // the same claims with a missing member each
+    for field in ["iat", "aud", "nonce", "sd_hash"] {
+        let mut c = good.clone();
+        c.as_object_mut().unwrap().remove(field);
+        let case = json!({"kind":"kb-extreme","field":field,"value_index":-1,"claims":c,"typ":"kb+jwt","leeway":0,"validate_exp":false,"region":"none"});
+        kb_case(ctx, &c, "kb+jwt", 0, false, &case);
+    }
+    // long non-ASCII text in every string member and in the header
+    for st in stress_strings().iter().step_by(7) {
+        for field in ["aud", "nonce", "sd_hash", "iss"] {
+            let mut c = good.clone();
+            c[field] = json!(st);
+            let case = json!({"kind":"kb-extreme","field":field,"value_index":-2,"claims":c,"typ":"kb+jwt","leeway":0,"validate_exp":false,"region":"none"});
+            kb_case(ctx, &c, "kb+jwt", 0, false, &case);
+        }
+        let case = json!({"kind":"kb-extreme","field":"typ","value_index":-2,"claims":good,"typ":st,"leeway":0,"validate_exp":false,"region":"none"});
+        kb_case(ctx, &good, st, 0, false, &case);
+    }
+}
+
 /// D21 (known finding): `exp + leeway` / `nbf - leeway` in jwt-rustcrypto's validation.rs
 fn leeway_overflow(ctx: &mut Ctx) {
     let dec = keys::dec_key(0, 0);
@@ -342,12 +507,13 @@ fn leeway_overflow(ctx: &mut Ctx) {
 }
 
 pub fn run(ctx: &mut Ctx, replay: Option<&Value>) {
-    ctx.report.rule = "all strings over {a . ~} up to length 9 (quick) / 12 (thorough) through sd_jwt_parts (compared with the model), Holder::verify, Holder::presentation, Verifier::verify, Disclosure::from_base64, decode, verify_kb; validly signed payloads of every JSON type / wrong types for _sd, ..., _sd_alg, cnf / depth-100 / 10^4-element lists x malformed disclosure strings; random mutations of issued tokens (class compared with the model); junk through the small parsers; non-trivial = distinct string containing both separators, or structured case".to_string();
+    ctx.report.rule = "all strings over {a . ~} up to length 9 (quick) / 12 (thorough) through sd_jwt_parts (compared with the model), Holder::verify, Holder::presentation, Verifier::verify, Disclosure::from_base64, decode, verify_kb; validly signed payloads of every JSON type / wrong types for _sd, ..., _sd_alg, cnf / depth-100 / 10^4-element lists x malformed disclosure strings; random mutations of issued tokens (class compared with the model); junk through the small parsers; long non-ASCII strings (2-, 3-, 4-byte and combining characters straddling byte offsets 8..1024) in every string position of payload, disclosures, header, cnf, YAML and key-binding JWT, on the paths that end in an error quoting them; validly signed key-binding JWTs with every claim at the numeric / JSON-type extremes x leeway x expiry checking through verify_kb and Verifier::verify; non-trivial = distinct string containing both separators, or structured case".to_string();
     if let Some(case) = replay {
         match case["kind"].as_str().unwrap_or("") {
             "string" | "damaged-jwt" => all_entries(ctx, case["s"].as_str().unwrap_or(""), case, true),
             "junk" => small_entries(ctx, case["s"].as_str().unwrap_or(""), case),
             "leeway" => leeway_overflow(ctx),
+            "kb-extreme" => kb_case(ctx, &case["claims"], case["typ"].as_str().unwrap_or("kb+jwt"), case["leeway"].as_u64().unwrap_or(0), case["validate_exp"].as_bool().unwrap_or(false), case),
             _ => {
                 if let (Some(p), Some(ds)) = (case.get("payload"), case["discs"].as_array()) {
                     if let Some(jwt) = sign_payload(p) {
@@ -367,5 +533,7 @@ pub fn run(ctx: &mut Ctx, replay: Option<&Value>) {
     let mut rng = Rng::fork(ctx.seed, 0);
     let rounds = ctx.count(300, 4000) as usize;
     structured(ctx, &mut rng, rounds);
+    string_stress(ctx);
+    kb_extremes(ctx);
     leeway_overflow(ctx);
 }
